@@ -31,6 +31,7 @@ import (
 	"strconv"
 	"strings"
 	"sync"
+	"sync/atomic"
 	"time"
 
 	"github.com/datastax/cql-proxy/codecs"
@@ -134,7 +135,7 @@ func (p *Proxy) OnEvent(event proxycore.Event) {
 			// concurrently.
 			frm := frame.NewFrame(p.cluster.NegotiatedVersion, -1, evt.Message)
 			err := cl.conn.Write(proxycore.SenderFunc(func(writer io.Writer) error {
-				return cl.codec.EncodeFrame(frm, writer)
+				return cl.getCodec().EncodeFrame(frm, writer)
 			}))
 			cl.conn.LocalAddr()
 			if err != nil {
@@ -328,8 +329,8 @@ func (p *Proxy) handle(conn net.Conn) {
 		ctx:                 p.ctx,
 		proxy:               p,
 		preparedSystemQuery: make(map[[preparedIdSize]byte]interface{}),
-		codec:               codecs.CustomRawCodec,
 	}
+	cl.codec.Store(codecBox{codecs.CustomRawCodec})
 	p.addClient(cl)
 	cl.conn = proxycore.NewConn(conn, cl)
 	cl.conn.Start()
@@ -563,11 +564,11 @@ type client struct {
 	compression         string
 	preparedSystemQuery map[[16]byte]interface{}
 	preparedSelectQuery map[[16]byte]interface{}
-	codec               frame.RawCodec
+	codec               atomic.Value // Holds a codecBox. Replaced when the client starts up with compression
 }
 
 func (c *client) Receive(reader io.Reader) error {
-	raw, err := c.codec.DecodeRawFrame(reader)
+	raw, err := c.getCodec().DecodeRawFrame(reader)
 	if err != nil {
 		if !errors.Is(err, io.EOF) {
 			c.proxy.logger.Error("unable to decode frame", zap.Error(err))
@@ -582,7 +583,7 @@ func (c *client) Receive(reader io.Reader) error {
 		return nil
 	}
 
-	body, err := c.codec.DecodeBody(raw.Header, codecs.NewFrameBodyReader(raw.Body))
+	body, err := c.getCodec().DecodeBody(raw.Header, codecs.NewFrameBodyReader(raw.Body))
 	if err != nil {
 		c.proxy.logger.Error("unable to decode body", zap.Error(err))
 		return err
@@ -597,7 +598,7 @@ func (c *client) Receive(reader io.Reader) error {
 	case *message.Startup:
 		if compression, ok := msg.Options["COMPRESSION"]; ok {
 			if codec, ok := codecs.CustomRawCodecsWithCompression[strings.ToLower(compression)]; ok {
-				c.codec = codec
+				c.codec.Store(codecBox{codec})
 				c.compression = compression
 			} else {
 				c.proxy.logger.Error("unsupported compression type used by client", zap.String("compression", compression))
@@ -884,9 +885,20 @@ func (c *client) interceptSystemQuery(hdr *frame.Header, stmt interface{}) {
 	}
 }
 
+// codecBox gives the codecs stored in client.codec one concrete type.
+type codecBox struct {
+	frame.RawCodec
+}
+
+// getCodec returns the codec in use. It's replaced by the connection's reader when the client starts up with compression
+// while the connection's writer (and the backend connections' readers) use it for the responses already on their way.
+func (c *client) getCodec() frame.RawCodec {
+	return c.codec.Load().(codecBox).RawCodec
+}
+
 func (c *client) send(hdr *frame.Header, msg message.Message) {
 	_ = c.conn.Write(proxycore.SenderFunc(func(writer io.Writer) error {
-		return c.codec.EncodeFrame(frame.NewFrame(hdr.Version, hdr.StreamId, msg), writer)
+		return c.getCodec().EncodeFrame(frame.NewFrame(hdr.Version, hdr.StreamId, msg), writer)
 	}))
 }
 
@@ -948,7 +960,7 @@ func (c *client) maybeOverrideUnsupportedWriteConsistency(isSelect bool, raw *fr
 // from the bytes actually written (the frame encoder counts a tracing id for requests that it never writes).
 func (c *client) encodeOverriddenFrame(raw *frame.RawFrame, body *frame.Body) interface{} {
 	var buf bytes.Buffer
-	if err := c.codec.EncodeBody(raw.Header, body, &buf); err != nil {
+	if err := c.getCodec().EncodeBody(raw.Header, body, &buf); err != nil {
 		c.proxy.logger.Error("unable to encode request with overridden consistency", zap.Error(err))
 		return &frame.Frame{
 			Header: raw.Header,
@@ -976,7 +988,7 @@ func (c *client) maybeStorePreparedMetadata(raw *frame.RawFrame, isSelect bool, 
 	logger := c.proxy.logger
 
 	if prepareMsg, ok := msg.(*message.Prepare); ok && raw.Header.OpCode == primitive.OpCodeResult { // Prepared result
-		frm, err := c.codec.ConvertFromRawFrame(raw)
+		frm, err := c.getCodec().ConvertFromRawFrame(raw)
 		if err != nil {
 			logger.Error("error attempting to decode prepared result message")
 		} else if preparedResultMsg, ok := frm.Body.Message.(*message.PreparedResult); !ok { // TODO: Use prepared type data to disambiguate idempotency
